@@ -1,18 +1,23 @@
 --------------------------- MODULE PerFileGraphMC ---------------------------
-(* Histories over two branches sharing one repository, built by the actions C02 quantifies over: modify, move (rename
+(* Histories over NB branches sharing one repository, built by the actions C02 quantifies over: modify, move (rename
    into / out of a directory), chmod, directory rename, remove / re-add, commit, merge of any revision the branch does
    not have (both ways, so criss-cross merges are reachable; the merged tree is chosen per file: THIS or OTHER, so
-   revert-after-merge and take-other are both covered), pull.  Identical parallel changes and cherry-picks arise from the
+   revert-after-merge and take-other are both covered; up to MaxMerge merges may be pending at once - `merge --force` -
+   so commits with three parents are reachable), pull, and switch (the branch is set to any revision, as pull --overwrite /
+   uncommit do, so any DAG shape can be grown from few branches).  Identical parallel changes and cherry-picks arise from the
    same edit on both branches.  Every commit applies the RULE of PerFileGraph.tla; the invariants are C02 on the model. *)
 EXTENDS PerFileGraph
 CONSTANTS Files,        \* file ids (strings), e.g. {"f", "g"}; the directory id is "d"
-          MaxRev, MaxEdits, WithRemove
+          MaxRev, MaxEdits, WithRemove,
+          NB,           \* number of branches
+          MaxMerge,     \* pending merge parents per commit (1: ordinary merges, 2: three-parent merges too)
+          WithSwitch,   \* BOOLEAN: Switch enabled
+          EditKinds     \* subset of {"modify", "move", "chmod", "renamedir"} (remove / re-add: WithRemove)
 VARIABLES P, T, fv, fp,          \* the repository: graph, trees, per-file data (sequences over revisions)
-          tip, wt, pm, ne,       \* per branch: tip revision, working tree, pending merge parent (0 = none), edits since commit
+          tip, wt, pm, ne,       \* per branch: tip revision, working tree, pending merge parents (a sequence), edits since commit
           step                   \* what the last action was (for replay): [a, b, r]
 vars == <<P, T, fv, fp, tip, wt, pm, ne, step>>
-Branches == {1, 2}
-Other(b) == 3 - b
+Branches == 1..NB
 DirId == "d"
 FileEntry(par, ex, c, f) == [parent |-> par, name |-> f, kind |-> "file", exec |-> ex, content |-> c]
 DirEntry(n) == [parent |-> "R", name |-> n, kind |-> "directory", exec |-> FALSE, content |-> "-"]
@@ -21,15 +26,15 @@ Flip(c) == IF c = "x" THEN "y" ELSE "x"
 
 Init == /\ P = <<<<>>>> /\ T = <<Tree0>>
         /\ fv = <<[i \in DOMAIN Tree0 |-> 1]>> /\ fp = <<[i \in DOMAIN Tree0 |-> {}]>>
-        /\ tip = [b \in Branches |-> 1] /\ wt = [b \in Branches |-> Tree0] /\ pm = [b \in Branches |-> 0]
+        /\ tip = [b \in Branches |-> 1] /\ wt = [b \in Branches |-> Tree0] /\ pm = [b \in Branches |-> <<>>]
         /\ ne = [b \in Branches |-> 0] /\ step = [a |-> "init", b |-> 0, r |-> 0]
 \* a limitation of the working tree, not of the rule: an id that the basis lacks and the pending merge parent has must sit
 \* at the merge parent's path (re-adding it elsewhere makes the dirstate unusable: commit raises DirstateCorrupt)
 PathIn(t, f) == IF t[f].parent = "R" THEN <<t[f].name>> ELSE <<t[t[f].parent].name, t[f].name>>
-WtOk(b, t, basisRev, mergeRev) ==
-    IF mergeRev = 0 THEN TRUE
-    ELSE \A f \in DOMAIN t \ {DirId} : (f \notin DOMAIN T[basisRev] /\ f \in DOMAIN T[mergeRev]) => PathIn(t, f) = PathIn(T[mergeRev], f)
-EditTo(b, t, name) == /\ ne[b] < MaxEdits /\ t # wt[b] /\ WtOk(b, t, tip[b], pm[b])
+WtOk(b, t, basisRev, mergeRevs) ==
+    \A mr \in Rng(mergeRevs) : \A f \in DOMAIN t \ {DirId} :
+        (f \notin DOMAIN T[basisRev] /\ f \in DOMAIN T[mr]) => PathIn(t, f) = PathIn(T[mr], f)
+EditTo(b, t, name) == /\ name \in EditKinds \cup {"remove", "readd"} /\ ne[b] < MaxEdits /\ t # wt[b] /\ WtOk(b, t, tip[b], pm[b])
                       /\ wt' = [wt EXCEPT ![b] = t] /\ ne' = [ne EXCEPT ![b] = @ + 1]
                       /\ step' = [a |-> name, b |-> b, r |-> 0]
                       /\ UNCHANGED <<P, T, fv, fp, tip, pm>>
@@ -40,30 +45,37 @@ RenameDir(b) == EditTo(b, [wt[b] EXCEPT ![DirId].name = IF @ = "d" THEN "e" ELSE
 Remove(b, f) == WithRemove /\ f \in DOMAIN wt[b] /\ EditTo(b, [i \in DOMAIN wt[b] \ {f} |-> wt[b][i]], "remove")
 \* (no re-add while a merge is pending: with two parent trees the working tree reports a removed and re-added id twice and
 \*  commit then drops the file - a working-tree defect outside C02)
-ReAdd(b, f) == WithRemove /\ f \notin DOMAIN wt[b] /\ pm[b] = 0
+ReAdd(b, f) == WithRemove /\ f \notin DOMAIN wt[b] /\ pm[b] = <<>>
                /\ EditTo(b, [i \in DOMAIN wt[b] \cup {f} |-> IF i = f THEN FileEntry("R", FALSE, "x", f) ELSE wt[b][i]], "readd")
 Commit(b) ==
     LET r == Len(P) + 1
-        ps == IF pm[b] = 0 THEN <<tip[b]>> ELSE <<tip[b], pm[b]>>
-    IN /\ r <= MaxRev /\ (wt[b] # T[tip[b]] \/ pm[b] # 0)
+        ps == <<tip[b]>> \o pm[b]
+    IN /\ r <= MaxRev /\ (wt[b] # T[tip[b]] \/ pm[b] # <<>>)
        /\ \E s \in {StepFor(T, fv, fp, ps, wt[b], r)} :
             /\ P' = Append(P, ps) /\ T' = Append(T, wt[b]) /\ fv' = Append(fv, s.fv) /\ fp' = Append(fp, s.fp)
-       /\ tip' = [tip EXCEPT ![b] = r] /\ pm' = [pm EXCEPT ![b] = 0] /\ ne' = [ne EXCEPT ![b] = 0]
+       /\ tip' = [tip EXCEPT ![b] = r] /\ pm' = [pm EXCEPT ![b] = <<>>] /\ ne' = [ne EXCEPT ![b] = 0]
        /\ step' = [a |-> "commit", b |-> b, r |-> r] /\ UNCHANGED wt
-\* merge revision r into a clean tree; per id the result is THIS's or OTHER's entry (or absence)
+\* merge revision r (into a clean tree; a further merge - `merge --force` - into the tree as it is); per id the result is
+\* THIS's or OTHER's entry (or absence).  WorkingTree.set_parent_ids keeps only heads, so the pending parents are
+\* mutually unrelated and none is in the tip's ancestry.
 Merge(b, r, takeOther) ==
-    /\ pm[b] = 0 /\ wt[b] = T[tip[b]] /\ Len(P) < MaxRev
+    /\ Len(pm[b]) < MaxMerge /\ (pm[b] = <<>> => wt[b] = T[tip[b]]) /\ Len(P) < MaxRev
     /\ r \in DOMAIN P /\ r \notin Ancestry(P, tip[b])
+    /\ \A q \in Rng(pm[b]) : r \notin Ancestry(P, q) /\ q \notin Ancestry(P, r)
     /\ wt' = [wt EXCEPT ![b] = [i \in {j \in DOMAIN wt[b] \cup DOMAIN T[r] : IF j \in takeOther THEN j \in DOMAIN T[r] ELSE j \in DOMAIN wt[b]} |->
                                    IF i \in takeOther THEN T[r][i] ELSE wt[b][i]]]
-    /\ WtOk(b, wt'[b], tip[b], r)
-    /\ pm' = [pm EXCEPT ![b] = r] /\ step' = [a |-> "merge", b |-> b, r |-> r]
+    /\ WtOk(b, wt'[b], tip[b], Append(pm[b], r))
+    /\ pm' = [pm EXCEPT ![b] = Append(@, r)] /\ step' = [a |-> "merge", b |-> b, r |-> r]
     /\ UNCHANGED <<P, T, fv, fp, tip, ne>>
-Pull(b) == /\ pm[b] = 0 /\ wt[b] = T[tip[b]] /\ tip[b] # tip[Other(b)] /\ tip[b] \in Ancestry(P, tip[Other(b)])
-           /\ tip' = [tip EXCEPT ![b] = tip[Other(b)]] /\ wt' = [wt EXCEPT ![b] = T[tip[Other(b)]]]
-           /\ step' = [a |-> "pull", b |-> b, r |-> tip[Other(b)]] /\ UNCHANGED <<P, T, fv, fp, pm, ne>>
+MoveTip(b, r, name) == /\ pm[b] = <<>> /\ wt[b] = T[tip[b]] /\ tip[b] # r
+                       /\ tip' = [tip EXCEPT ![b] = r] /\ wt' = [wt EXCEPT ![b] = T[r]]
+                       /\ step' = [a |-> name, b |-> b, r |-> r] /\ UNCHANGED <<P, T, fv, fp, pm, ne>>
+Pull(b, o) == tip[b] \in Ancestry(P, tip[o]) /\ MoveTip(b, tip[o], "pull")
+Switch(b, r) == WithSwitch /\ MoveTip(b, r, "switch")
 Next == \E b \in Branches :
-            \/ Commit(b) \/ Pull(b) \/ RenameDir(b)
+            \/ Commit(b) \/ RenameDir(b)
+            \/ \E o \in Branches \ {b} : Pull(b, o)
+            \/ \E r \in DOMAIN P : Switch(b, r)
             \/ \E f \in Files : Modify(b, f) \/ Move(b, f) \/ Chmod(b, f) \/ Remove(b, f) \/ ReAdd(b, f)
             \/ \E r \in DOMAIN P, S \in SUBSET (Files \cup {DirId}) : Merge(b, r, S)
 Spec == Init /\ [][Next]_vars
@@ -84,12 +96,17 @@ KeysMatch == \A r \in AllRevs : DOMAIN fp[r] = {f \in DOMAIN T[r] : fv[r][f] = r
 \* the rule applied to the whole history from scratch gives the same data (the Trace module relies on it)
 RuleAgrees == Let(Rule(P, T), LAMBDA R : R.fv = fv /\ R.fp = fp)
 \* anti-vacuity
-IsMergeRev(r) == Len(P[r]) = 2
+IsMergeRev(r) == Len(P[r]) >= 2
 WitnessTwoHeads == ~(\E r \in AllRevs : \E f \in DOMAIN fp[r] : Cardinality(fp[r][f]) = 2)
 WitnessTookOther == ~(\E r \in AllRevs : IsMergeRev(r) /\ \E f \in DOMAIN T[r] : fv[r][f] # r /\ f \in DOMAIN T[P[r][1]] /\ fv[r][f] # fv[P[r][1]][f])
 WitnessRevertAfterMerge == ~(\E r \in AllRevs : IsMergeRev(r) /\ \E f \in DOMAIN fp[r] : f \in DOMAIN T[P[r][1]] /\ T[r][f] = T[P[r][1]][f])
 WitnessCrissCross == ~(\E r, s \in AllRevs : r # s /\ IsMergeRev(r) /\ IsMergeRev(s) /\ r \notin Ancestry(P, s) /\ s \notin Ancestry(P, r)
                           /\ Cardinality(LCAs(P, r, s)) = 2)
+\* three parents: both merged parents carry the same version of f, newer than the basis's, and it is carried over
+WitnessOctopusSameVersion == ~(\E r \in AllRevs : Len(P[r]) = 3 /\ \E f \in DOMAIN T[r] :
+                                  /\ \A k \in 1..3 : f \in DOMAIN T[P[r][k]]
+                                  /\ fv[P[r][2]][f] = fv[P[r][3]][f] /\ fv[P[r][1]][f] # fv[P[r][2]][f] /\ fv[r][f] = fv[P[r][2]][f])
+WitnessOctopusThreeHeads == ~(\E r \in AllRevs : \E f \in DOMAIN fp[r] : Cardinality(fp[r][f]) = 3)
 WitnessIdenticalParallel == ~(\E r \in AllRevs : IsMergeRev(r) /\ \E f \in DOMAIN fp[r] : Cardinality(fp[r][f]) = 2
                                  /\ \A h \in fp[r][f] : T[h][f] = T[r][f])
 =============================================================================
